@@ -30,6 +30,7 @@ PYTYPES = {
     'reversed': reversed, 'count': itertools.count,
     'deque': collections.deque, 'range': range,
     'list_iterator': type(iter([])),
+    'namedtuple': collections.namedtuple('_NT', 'a b'),
 }
 REPO_KINDS = {
     'FrozenDict': 'yaql.language.utils:FrozenDict',
@@ -192,6 +193,34 @@ class Interp:
             v = env.get(model.norm(test.left), 'unknown')
             isnone = v is None
             return isnone if isinstance(test.ops[0], ast.Is) else not isnone
+        if isinstance(test, ast.Compare) and len(test.ops) == 1 and \
+                isinstance(test.ops[0], (ast.Is, ast.IsNot, ast.Eq,
+                                         ast.NotEq)):
+            a = self.value(test.left, shape, env)
+            b = self.value(test.comparators[0], shape, env)
+            if isinstance(a, tuple) and isinstance(b, tuple) and \
+                    a[0] == b[0] == 'ctor':
+                same = a[1] == b[1]
+                return same if isinstance(test.ops[0], (ast.Is, ast.Eq)) \
+                    else not same
+        if isinstance(test, ast.Call) and isinstance(
+                test.func, ast.Name) and test.func.id in ('any', 'all') \
+                and len(test.args) == 1 and isinstance(
+                    test.args[0], (ast.GeneratorExp, ast.ListComp)) and \
+                len(test.args[0].generators) == 1 and \
+                not test.args[0].generators[0].ifs:
+            ge = test.args[0]
+            g = ge.generators[0]
+            src = self.value(g.iter, shape, env)
+            vals = []
+            for item in self.iterate(src):
+                env2 = dict(env)
+                self.bind(g.target, item, env2)
+                sub = env2.get(g.target.id) if isinstance(
+                    g.target, ast.Name) else shape
+                vals.append(self.truth(ge.elt, sub if isinstance(
+                    sub, Shape) else shape, env2))
+            return any(vals) if test.func.id == 'any' else all(vals)
         if isinstance(test, ast.Call):
             d = self.repo.resolve(self.mod, test.func,
                                   model.scope_locals(self.fi))
@@ -273,6 +302,8 @@ class Interp:
                 env2 = dict(env)
                 self.bind(g.target, item, env2)
                 out.append(self.value(e.elt, shape, env2))
+            if isinstance(e, ast.ListComp):
+                return self.build('list', out)
             return ('stream', out)
         if isinstance(e, ast.Lambda):
             return ('lambda', e)
@@ -385,6 +416,10 @@ class Interp:
                 ks.append(k)
                 vs.append(v)
             return Shape(kind, [ks[0], vs[0]] if ks else [])
+        if kind == 'namedtuple':
+            raise Error('constructor', None, 'namedtuple',
+                        'type(obj)(<iterable>) does not construct a '
+                        'namedtuple (it wants one argument per field)')
         kids = []
         for it in items:
             if isinstance(it, tuple) and it[0] == 'pair':
@@ -497,7 +532,7 @@ class Interp:
         return None
 
 
-def universe(facts, depth=2, input_side=False):
+def universe(facts, depth=2, input_side=False, extra_kinds=()):
     """All shapes up to `depth` that can exist at run time."""
     leaves = [Shape(k) for k in LEAVES]
     small_leaves = [Shape('int'), Shape('str')]
@@ -557,6 +592,14 @@ def universe(facts, depth=2, input_side=False):
             l3 = level([s for s in l2 if s.kids and not s.kids[0].kids or
                         True][:60], keys3)
             shapes += l3
+    for k in extra_kinds:
+        if k == 'namedtuple':
+            for a in small_leaves:
+                shapes.append(Shape('namedtuple', [a, Shape('int')]))
+                shapes.append(Shape('list', [Shape('namedtuple',
+                                                   [a, Shape('int')])]))
+                shapes.append(Shape('map', [Shape('namedtuple',
+                                                  [a, Shape('int')])]))
     # de-duplicate
     seen = {}
     for s in shapes:
